@@ -29,17 +29,17 @@ LAYOUTS = {
     "odd": [("fix", I8 + b"\x00\x07\x01"), ("cand", b"FANS"), ("fix", bytes(range(13))), ("hdr", b"INFO"), ("fix", bytes(range(3)))],
 }
 HARNESSES = [
-    {"fn": "h_partition", "cases": sorted(LAYOUTS), "quick_cases": ["at0", "two", "adjacent", "truncated", "none", "three", "tiny", "odd"],
+    {"fn": "h_partition", "cases": sorted(LAYOUTS), "quick_cases": ["at0", "two", "adjacent", "truncated", "none", "three", "tiny", "odd", "twice"],
      "timeout": {"quick": 150, "thorough": 600}},
-    {"fn": "h_file", "cases": ["f%d:L%d:u%d:c%d" % (f, L, u, c) for f in (0, 1) for L in (23, 37, 40, 180) for u in (0, 1) for c in (0, 1)] + ["empty", "f0:L40:u1:c0:pre", "f1:L37:u0:c1:pre", "f0:L5:u0:c1", "f1:L3:u1:c0"],
-     "quick_cases": ["f0:L40:u1:c0:pre", "f1:L37:u0:c1:pre", "f1:L3:u1:c0", "f0:L40:u1:c0", "f1:L37:u0:c1", "f0:L180:u1:c1", "f1:L23:u1:c0", "empty"],
+    {"fn": "h_file", "cases": ["f%d:L%d:u%d:c%d" % (f, L, u, c) for f in (0, 1) for L in (23, 37, 40, 180) for u in (0, 1) for c in (0, 1)] + ["empty", "f0:L40:u1:c0:pre", "f1:L37:u0:c1:pre", "f0:L5:u0:c1", "f1:L3:u1:c0", "f0:L37:u1:c1:nonl", "f1:L23:u0:c1:nonl", "f1:L32:u1:c0:nonl"],
+     "quick_cases": ["f0:L40:u1:c0:pre", "f1:L37:u0:c1:pre", "f1:L3:u1:c0", "f0:L37:u1:c1:nonl", "f1:L23:u0:c1:nonl", "f0:L40:u1:c0", "f1:L37:u0:c1", "f0:L180:u1:c1", "f1:L23:u1:c0", "empty"],
      "timeout": {"quick": 150, "thorough": 400}},
 ]
 BOUNDS = {"layouts": "11 catalogue layouts (1..7 symbolic bytes, headers at odd offsets, no header, header at offset 0, two buffers, adjacent headers, all six names shuffled, a "
                      "name without the 4-byte start inside ILOG data, the same name twice, truncated buffers, three buffers); the 4 "
                      "start bytes of up to two candidate headers are symbolic (so each may or may not be a header)",
           "files": "dump files of 3, 5, 23, 37, 40, 180 bytes in both hex formats, either digit case, cut / padded last line, the last byte "
-                   "symbolic; optionally preceded by comment and blank lines"}
+                   "symbolic; optionally preceded by comment and blank lines, optionally without a final newline"}
 ASSUMPTIONS = ["the stand-alone decoders are replaced by recorders that capture the exact slice they are handed (E6); C14 / C15 cover them",
                "'recognised header' = first occurrence of start bytes + name for each of the six names (DESIGN.md 9)",
                "open() of the dump file replaced by an in-memory file"]
@@ -148,6 +148,8 @@ def file_body(CASE):
     w = sym_bytes("w", 1)
     data = mkbytes(base[:p], w)
     text = [ln + "\n" for ln in _render(dump.HEX_DUMP_LINE_FORMATS[f], data, upper, cut)]
+    if CASE.endswith(":nonl"):
+        text[-1] = text[-1][:-1]            # the file does not end with a newline
     if CASE.endswith(":pre"):
         # comment / blank lines before the data (they are not data lines in either format)
         text = (["\n", "# drawer dump, no address column here\n"] if f == 0 else ["# taken at 12:30: drawer 7\n", "\n"]) + text
